@@ -241,3 +241,71 @@ func c10GossipPath(w *core.WorkerCtx) {
 		}
 	}
 }
+
+// c10Trusted: the sealing rules do not depend on who seals. A node trusts a sealer (its vertices skip the funds
+// validation); vertices of that sealer that break a sealing rule - its own transaction, a transaction of the genesis
+// wallet, an empty one - are refused like anybody else's, through delivery and through the orphan buffer.
+func c10Trusted(w *core.WorkerCtx) {
+	rng := core.Rand(w.Seed, "C10trusted", w.Batch)
+	desc := fmt.Sprintf("c10 trusted sealer offers forbidden vertices seed=%d batch=%d", w.Seed, w.Batch)
+	w.Mark("%s", desc)
+	world := ledger.NewWorld(rng, w.R, []string{"C10"}, allSnapOracles, desc)
+	defer world.Close()
+	if _, err := ledger.Setup(world, ledger.Profile{Nodes: 1, Users: 4, SupplyClass: 0, Delivery: "lockstep"}); err != nil {
+		w.R.Inconc("setup failed: " + err.Error())
+		return
+	}
+	n := world.Nodes[0]
+	u := world.Users
+	trusted := world.Sealers[0]
+	world.Trust(n, trusted.Addr, true)
+	gen := n.Actor // node 0 issued the genesis
+	for round := 0; round < w.Pick(6, 30); round++ {
+		s := n.Prev
+		var tip ledger.H
+		var wgt uint64
+		for h := range s.Leaves {
+			if v, ok := s.Vertex(h); ok && v.Weight >= wgt {
+				tip, wgt = h, v.Weight
+			}
+		}
+		if wgt == 0 {
+			break
+		}
+		var t transaction.Transaction
+		rule := []string{"self-sealed", "genesis-wallet-spends", "empty-transaction"}[round%3]
+		switch rule {
+		case "self-sealed":
+			t = world.NewTrx(trusted, u[1].Addr, spice.Melange{}, []byte("own transaction of a trusted sealer"))
+		case "genesis-wallet-spends":
+			t = world.NewTrx(gen, u[1].Addr, spice.Melange{Currency: 1}, nil)
+		default:
+			t = world.NewTrx(u[1], u[2].Addr, spice.Melange{}, nil)
+		}
+		v := ledger.ForgeVertex(trusted, t, tip, tip, wgt+1, world.Now())
+		var err error
+		entry := "gossip"
+		if round%2 == 1 {
+			// through the orphan buffer: before an honest parent
+			entry = "orphan-replay"
+			pt := world.NewTrx(u[0], u[3].Addr, spice.Melange{}, []byte("honest parent"))
+			p := ledger.ForgeVertex(world.Sealers[1], pt, tip, tip, wgt+1, world.Now())
+			v = ledger.ForgeVertex(trusted, t, p.Hash, p.Hash, wgt+2, world.Now())
+			err = world.Deliver(n, &v, "forbidden vertex of a trusted sealer before its parent")
+			world.Deliver(n, &p, "the parent")
+			for k := 0; k < 4; k++ {
+				world.Retry(n)
+			}
+		} else {
+			err = world.Deliver(n, &v, "forbidden vertex of a trusted sealer")
+		}
+		world.EvalFor("C10", 1)
+		world.NontrivFor("C10", fmt.Sprintf("trusted-sealer/%s/%s/refused=%v", rule, entry, err != nil))
+		if _, held := n.Prev.Vertex(v.Hash); held {
+			world.Violate("C10", "accepted/"+rule+"/trusted-sealer", fmt.Sprintf("a %s vertex sealed by a sealer the node trusts (entry: %s, answer: %v) is in the ledger", rule, entry, err))
+		}
+		m := world.NewTrx(u[0], u[1].Addr, spice.Melange{}, []byte("merge"))
+		world.Propose(n, &m, "merge")
+	}
+	w.R.Count("c10_trusted_sealer_scenarios", 1)
+}
